@@ -449,21 +449,19 @@ def translate_read(cx, body, body_idx, marker_name, arg_kind):
             continue
         m = re.fullmatch(r"let (%s)=\*args" % IDENT, s)
         if m:
-            if arg_kind is None or ops:
+            if arg_kind is None or ops or args:
                 cx.fail(idx, "args binding in unexpected place", s)
             args = [m.group(1)]
-            ops.append("OArgs %s" % clist([cs(a) for a in args]))
             shape("let_args")
             continue
         m = re.fullmatch(r"let ?\((.*)\)=\*args", s)
         if m:
-            if arg_kind is None or ops:
+            if arg_kind is None or ops or args:
                 cx.fail(idx, "args binding in unexpected place", s)
             args = [a for a in split_top(m.group(1)) if a]
             for a in args:
                 if not re.fullmatch(IDENT, a):
                     cx.fail(idx, "unknown args pattern", s)
-            ops.append("OArgs %s" % clist([cs(a) for a in args]))
             shape("let_args_tuple")
             continue
         if not seen_cursor:
@@ -915,8 +913,8 @@ HEADER = """(* GENERATED by translators/layout_extract.py from /repo/read-fonts/
 From Coq Require Import ZArith List String.
 From FV Require Import C01.Layout.
 Import ListNotations.
-Open Scope Z_scope.
 Open Scope string_scope.
+Open Scope Z_scope.
 
 """
 
